@@ -747,3 +747,602 @@ Proof.
 Qed.
 
 End B.
+
+(* ---------- the run against the ground truth ---------- *)
+Section M.
+Variable kink : list Z -> Z.
+Variable c : cfg.
+Hypothesis kink_range : kink_ok kink.
+Hypothesis cfg_valid : cfg_ok c.
+Variable F0 : Z.
+Hypothesis F0_nonneg : 0 <= F0.
+
+Notation npre := (c_npre c).
+Notation nsamp := (c_nsamp c).
+
+(* r is the record for spec sp cut from the ground truth G (G[0] has frame F0): in range, exact excerpt *)
+Definition rec_of (G : list Z) (sp : spec) (r : record) : Prop :=
+  let '(f, p, n) := sp in
+  r_frame r = f /\ r_pre r = p /\ zlen (r_data r) = n /\ 0 <= p /\ 0 <= n /\
+  0 <= f - F0 - p /\ f - F0 - p + n <= zlen G /\ r_data r = zslice G (f - F0 - p) n.
+
+Lemma zslice_app_l {A} (l x : list A) a n : 0 <= a -> 0 <= n -> a + n <= zlen l -> zslice (l ++ x) a n = zslice l a n.
+Proof.
+  intros Ha Hn H. unfold zslice, zfirstn, zskipn, zlen in *. rewrite skipn_app, firstn_app.
+  replace (Z.to_nat n - length (skipn (Z.to_nat a) l))%nat with 0%nat by (rewrite skipn_length; lia).
+  cbn [firstn]. now rewrite app_nil_r.
+Qed.
+
+Lemma rec_of_app G X sp r : rec_of G sp r -> rec_of (G ++ X) sp r.
+Proof.
+  destruct sp as [[f p] n]. unfold rec_of. intros (H1 & H2 & H3 & H4 & H5 & H6 & H7 & H8).
+  rewrite zlen_app. pose proof (zlen_nonneg X). rewrite zslice_app_l by lia. repeat split; auto; lia.
+Qed.
+
+Lemma cut_of_rec_of G st sp r :
+  StreamInv G F0 st -> spec_ok (st_first st) (zlen (st_data st)) sp -> cut_of st sp r -> rec_of G sp r.
+Proof.
+  intros [Hl Hd Hf] Hok Hc. destruct sp as [[f p] n]. unfold spec_ok, cut_of, rec_of in *.
+  destruct Hc as (C1 & C2 & C3 & C4). pose proof (zlen_nonneg (st_data st)).
+  repeat split; try lia. rewrite C3. rewrite Hd at 1. rewrite zslice_zskipn by lia. f_equal. lia.
+Qed.
+
+Lemma Forall2_cut_rec G st specs recs :
+  StreamInv G F0 st -> Forall (spec_ok (st_first st) (zlen (st_data st))) specs ->
+  Forall2 (cut_of st) specs recs -> Forall2 (rec_of G) specs recs.
+Proof.
+  intros SI Hok F2. induction F2 as [|sp r specs recs H _ IH]; [constructor|].
+  inversion Hok; subst. constructor; [eapply cut_of_rec_of; eauto|auto].
+Qed.
+
+Lemma Forall2_cut_ok st specs recs : Forall2 (cut_of st) specs recs -> True. Proof. trivial. Qed.
+
+Definition ref_loop (G : list Z) (r : lstate * list spec) : Prop :=
+  Loop kink c G F0 (zlen G - 1 - (nsamp - npre)) (npre, 0, 0, 0) r.
+
+Record BInv (G : list Z) (st : stream) (s : emt) (A : list spec) : Prop := {
+  bi_stream : StreamInv G F0 st;
+  bi_einv : EInv c (st_first st) (st_endframe st) s;
+  bi_pos : npre <= e_next s - st_first st;
+  bi_clamp : st_first st = F0 \/ npre + 1 <= e_next s - st_first st;
+  bi_ref : exists t u v pout pend,
+      ref_loop G ((e_next s - F0, t, u, v), pout) /\ RelE c (e_next s) (t, u, v) (tuv_of s) pend /\ A = pout ++ pend }.
+
+Lemma StreamInv_end G st : StreamInv G F0 st -> st_endframe st = F0 + zlen G /\ F0 <= st_first st.
+Proof. intros [Hl Hd Hf]. unfold st_endframe. pose proof (zlen_nonneg (st_data st)). lia. Qed.
+
+(* the specs of a step are cut in range *)
+Lemma step_specs_ok st s sg s1 out :
+  let W := st_data st ++ seg_data sg in
+  Loop kink c W (st_first st) (zlen W - 1 - (nsamp - npre)) (start_state c s (st_first st)) (s1, out) ->
+  EInv c (st_first st) (st_endframe st) s -> 0 <= st_first st ->
+  Forall (spec_ok (st_first st) (zlen W)) (out ++ snd (flush c (st_first st) s1)).
+Proof.
+  intros W L HE HF.
+  assert (HW : zlen W = zlen (st_data st) + zlen (seg_data sg)) by (unfold W; apply zlen_app).
+  pose proof (zlen_nonneg (seg_data sg)). destruct cfg_valid as (H1 & H2 & _).
+  assert (HS : SInv c (st_first st) (zlen W) (start_state c s (st_first st))).
+  { eapply start_inv; eauto. unfold st_endframe; lia. }
+  pose proof (Loop_safe kink c kink_range cfg_valid W (st_first st) _ _ L HF HS) as [I1 I2]. cbn [fst snd] in I1, I2.
+  pose proof (Loop_pos kink c kink_range W _ _ _ _ L) as [_ Hp]. cbn [fst] in Hp.
+  destruct (flush_inv c cfg_valid (st_first st) (zlen W) s1 I1 HF ltac:(lia)) as [J1 J2].
+  apply Forall_app; split; assumption.
+Qed.
+
+Lemma kept_bounds st sg s1 s :
+  let W := st_data st ++ seg_data sg in
+  let F' := kept (n_to_keep c) (st_first st) (zlen W) in
+  pos (start_state c s (st_first st)) <= pos s1 -> zlen W - 1 - (nsamp - npre) + 1 <= pos s1 ->
+  npre <= e_next s - st_first st ->
+  e_next (fst (flush c (st_first st) s1)) = pos s1 + st_first st /\
+  npre <= pos s1 + st_first st - F' /\
+  (F' = st_first st /\ e_next s - st_first st <= pos s1 + st_first st - F' \/ npre + 1 <= pos s1 + st_first st - F').
+Proof.
+  intros W F' P1 P2 P3. destruct cfg_valid as (H1 & H2 & _).
+  assert (E : e_next (fst (flush c (st_first st) s1)) = pos s1 + st_first st).
+  { destruct s1 as [[[i t] u] v]. unfold flush, pos; cbn [fst snd].
+    destruct ((0 <? v) && (v <? i + st_first st - nsamp)); reflexivity. }
+  split; [exact E|]. unfold start_state in P1. replace (e_next s - st_first st <? npre) with false in P1 by lia.
+  unfold pos in P1 at 1; cbn [fst] in P1. subst F'. unfold kept, n_to_keep.
+  destruct (2 * nsamp + 10 >=? zlen W) eqn:Q; lia.
+Qed.
+
+
+Lemma sh_zero s : sh 0 s = s.
+Proof. destruct s as [[[i t] u] v]. unfold sh, pos; cbn [fst snd]. now rewrite Z.add_0_r. Qed.
+
+(* a later block: the real run keeps refining the single-block run of everything delivered so far *)
+Lemma BInv_step G st s A sg :
+  BInv G st s A -> seg_first sg = st_endframe st ->
+  exists st' s' recs specs,
+    step kink c st s sg = EOk (st', s', recs) /\
+    Forall2 (rec_of (G ++ seg_data sg)) specs recs /\
+    BInv (G ++ seg_data sg) st' s' (A ++ specs).
+Proof.
+  intros [SI HE Hpos Hcl (t & u & v & pout & pend & Href & HR & HA)] Hc.
+  destruct (StreamInv_end G st SI) as [Hend HF].
+  assert (HF0 : 0 <= st_first st) by lia.
+  destruct (step_char kink c kink_range cfg_valid st s sg HE HF0 Hc)
+    as (s1 & out & recs & L & Hstep & F2 & Hd & Hf & HE' & HF' & Hend').
+  set (W := st_data st ++ seg_data sg) in *. set (X := seg_data sg) in *. set (G' := G ++ X).
+  set (d := st_first st - F0).
+  pose proof (zlen_nonneg (st_data st)) as Hn1. pose proof (zlen_nonneg X) as Hn2.
+  destruct SI as [Sl Sd Sf]. destruct cfg_valid as (V1 & V2 & _). pose proof (lb_npre c cfg_valid) as Hlb.
+  assert (Hdz : d = zlen G - zlen (st_data st)) by (unfold d; lia).
+  assert (HWG : W = zskipn d G') by (unfold W, G'; rewrite zskipn_app_r by lia; rewrite Hdz, <- Sd; reflexivity).
+  assert (HlW : zlen W = zlen G' - d) by (unfold W, G'; rewrite !zlen_app; lia).
+  assert (HlG' : zlen G' = zlen G + zlen X) by (unfold G'; apply zlen_app).
+  (* the real loop, seen on the ground truth *)
+  assert (Hss : start_state c s (st_first st) = (e_next s - st_first st, e_t s, e_u s, e_v s)).
+  { unfold start_state. replace (e_next s - st_first st <? npre) with false by lia. reflexivity. }
+  pose proof L as Lw. rewrite Hss in Lw.
+  assert (Lg : Loop kink c G' F0 (zlen G' - 1 - (nsamp - npre)) (e_next s - F0, e_t s, e_u s, e_v s) (sh d s1, out)).
+  { pose proof (Loop_agree kink c kink_range cfg_valid 0 (zlen W - 1) d W G' (st_first st)
+                  (zlen W - 1 - (nsamp - npre)) _ _ ltac:(rewrite HWG; apply agree_suffix; lia) ltac:(lia)
+                  ltac:(lia) Lw) as Q.
+    unfold sh in *. unfold pos in *. cbn [fst snd] in Q.
+    replace (st_first st - d) with F0 in Q by (unfold d; lia).
+    replace (zlen W - 1 - (nsamp - npre) + d) with (zlen G' - 1 - (nsamp - npre)) in Q by lia.
+    replace (e_next s - st_first st + d) with (e_next s - F0) in Q by (unfold d; lia).
+    apply Q; [lia|]. destruct Hcl as [Hcl|Hcl]; [left; unfold d; lia|right; lia]. }
+  (* the single-block run over G, replayed on G' *)
+  assert (Lr : Loop kink c G' F0 (zlen G - 1 - (nsamp - npre)) (npre, 0, 0, 0) ((e_next s - F0, t, u, v), pout)).
+  { pose proof (Loop_agree kink c kink_range cfg_valid 0 (zlen G - 1) 0 G G' F0
+                  (zlen G - 1 - (nsamp - npre)) _ _ ltac:(apply agree_prefix) ltac:(lia) ltac:(lia) Href) as Q.
+    rewrite !sh_zero, Z.sub_0_r, Z.add_0_r in Q. cbn [fst snd] in Q. apply Q; [unfold pos; cbn [fst]; lia|now left]. }
+  destruct (Loop_total kink c kink_range cfg_valid G' F0 (zlen G' - 1 - (nsamp - npre)) ltac:(lia)
+              (Z.to_nat (zlen G' - 1 - (nsamp - npre) + 1 - (e_next s - F0))) (e_next s - F0) t u v
+              ltac:(lia) ltac:(lia)) as [[s2 po2] L2].
+  pose proof (Loop_split kink c G' F0 _ (zlen G' - 1 - (nsamp - npre)) _ _ Lr ltac:(lia) _ L2) as Lref.
+  cbn [fst snd] in Lref.
+  (* both loops run over the same samples from the same position *)
+  destruct (Loop_bisim kink c kink_range cfg_valid G' F0 _ _ _ L2 (e_next s - F0, e_t s, e_u s, e_v s) pend _
+              eq_refl ltac:(unfold pos, tuv; cbn [fst snd]; replace (e_next s - F0 + F0) with (e_next s) by lia;
+                            apply RelE_Rel; exact HR) Lg)
+    as (Hp2 & pend' & R' & Eq').
+  cbn [fst snd] in Hp2, R', Eq'.
+  pose proof (Loop_pos kink c kink_range W _ _ _ _ L) as [P1 P2]. cbn [fst] in P1, P2.
+  destruct (kept_bounds st sg s1 s P1 P2 Hpos) as (En & Kp & Kc).
+  destruct s1 as [[[i1 t1] u1] v1]. destruct s2 as [[[i2 t2] u2] v2].
+  unfold sh, tuv in *; unfold pos in *; cbn [fst snd] in *.
+  destruct (Rel_flush c cfg_valid (i2 + F0) (st_first st) i1 (t2, u2, v2) t1 u1 v1 pend' R' ltac:(unfold d in Hp2; lia))
+    as [RE Enx].
+  exists (trim (n_to_keep c) (append st sg)), (fst (flush c (st_first st) (i1, t1, u1, v1))), recs,
+         (out ++ snd (flush c (st_first st) (i1, t1, u1, v1))).
+  split; [exact Hstep|].
+  assert (SI1 : StreamInv G' F0 (append st sg)).
+  { apply append_inv; [split; assumption|]. rewrite Hc. exact Hend. }
+  split.
+  { eapply Forall2_cut_rec; [exact SI1| |exact F2]. rewrite Hd, Hf.
+    apply (step_specs_ok st s sg (i1, t1, u1, v1) out L HE HF0). }
+  assert (HK : 0 <= n_to_keep c) by (unfold n_to_keep; lia).
+  constructor.
+  - apply trim_inv; [exact HK|exact SI1].
+  - exact HE'.
+  - rewrite trim_first, Hd, Hf. fold W. rewrite En. exact Kp.
+  - rewrite trim_first, Hd, Hf. fold W. rewrite En.
+    destruct Kc as [[K1 K2]|K1]; [|right; exact K1].
+    change (kept (n_to_keep c) (st_first st) (zlen W) = st_first st) in K1.
+    change (e_next s - st_first st <= i1 + st_first st - kept (n_to_keep c) (st_first st) (zlen W)) in K2.
+    destruct Hcl as [Hcl|Hcl]; [left; rewrite K1; exact Hcl|right; lia].
+  - exists t2, u2, v2, (pout ++ po2), (pend' ++ snd (flush c (st_first st) (i1, t1, u1, v1))).
+    rewrite Enx. replace (i2 + F0 - F0) with i2 by lia. split; [exact Lref|]. split; [exact RE|].
+    rewrite HA. rewrite <- !app_assoc. f_equal. rewrite !app_assoc. f_equal. exact Eq'.
+Qed.
+
+
+(* the first block after the (re)configuration: the real run IS the single-block run *)
+Lemma BInv_first st0 sg :
+  st_first st0 = F0 -> seg_first sg = st_endframe st0 ->
+  exists st' s' recs specs,
+    step kink c st0 emt_reset sg = EOk (st', s', recs) /\
+    Forall2 (rec_of (st_data st0 ++ seg_data sg)) specs recs /\
+    BInv (st_data st0 ++ seg_data sg) st' s' specs.
+Proof.
+  intros HF Hc. assert (HF0 : 0 <= st_first st0) by lia.
+  assert (HE : EInv c (st_first st0) (st_endframe st0) emt_reset) by (left; reflexivity).
+  destruct (step_char kink c kink_range cfg_valid st0 emt_reset sg HE HF0 Hc)
+    as (s1 & out & recs & L & Hstep & F2 & Hd & Hf & HE' & HF' & Hend').
+  set (W := st_data st0 ++ seg_data sg) in *.
+  destruct cfg_valid as (V1 & V2 & _).
+  assert (Hss : start_state c emt_reset (st_first st0) = (npre, 0, 0, 0)).
+  { unfold start_state. cbn [emt_reset e_next]. replace (0 - st_first st0 <? npre) with true by lia. reflexivity. }
+  pose proof (Loop_pos kink c kink_range W _ _ _ _ L) as [P1 P2]. cbn [fst] in P1, P2.
+  rewrite Hss in L, P1. rewrite HF in *.
+  destruct s1 as [[[i1 t1] u1] v1]. unfold pos in *; cbn [fst snd] in *.
+  destruct (Rel_flush c cfg_valid (i1 + F0) F0 i1 (t1, u1, v1) t1 u1 v1 [] (Rel0 c _ _) eq_refl) as [RE Enx].
+  cbn [app] in RE.
+  assert (SI0 : StreamInv (st_data st0) F0 st0).
+  { split; [lia| |lia]. rewrite Z.sub_diag. reflexivity. }
+  assert (SI1 : StreamInv W F0 (append st0 sg)).
+  { apply append_inv; [exact SI0|]. rewrite Hc. unfold st_endframe. lia. }
+  assert (HK : 0 <= n_to_keep c) by (unfold n_to_keep; lia).
+  exists (trim (n_to_keep c) (append st0 sg)), (fst (flush c F0 (i1, t1, u1, v1))), recs,
+         (out ++ snd (flush c F0 (i1, t1, u1, v1))).
+  split; [exact Hstep|]. split.
+  { eapply Forall2_cut_rec; [exact SI1| |exact F2]. rewrite Hd, Hf.
+    pose proof (step_specs_ok st0 emt_reset sg (i1, t1, u1, v1) out) as Q. cbn zeta in Q. rewrite HF, Hss in Q.
+    apply Q; [exact L|exact HE|lia]. }
+  constructor.
+  - apply trim_inv; [exact HK|exact SI1].
+  - exact HE'.
+  - rewrite trim_first, Hd, Hf, Enx. unfold kept, n_to_keep. destruct (2 * nsamp + 10 >=? zlen W) eqn:Q; lia.
+  - rewrite trim_first, Hd, Hf, Enx. unfold kept, n_to_keep. destruct (2 * nsamp + 10 >=? zlen W) eqn:Q; [left; reflexivity|right; lia].
+  - exists t1, u1, v1, out, (snd (flush c F0 (i1, t1, u1, v1))). rewrite Enx.
+    replace (i1 + F0 - F0) with i1 by lia. split; [exact L|]. split; [exact RE|reflexivity].
+Qed.
+
+Lemma Forall2_rec_of_app G X specs recs : Forall2 (rec_of G) specs recs -> Forall2 (rec_of (G ++ X)) specs recs.
+Proof. induction 1; constructor; auto using rec_of_app. Qed.
+
+Lemma contiguous_cons F sg rest : contiguous F (sg :: rest) -> seg_first sg = F /\ contiguous (F + zlen (seg_data sg)) rest.
+Proof. intros H; exact H. Qed.
+
+Lemma run_BInv : forall segs G st s A,
+  BInv G st s A -> contiguous (st_endframe st) segs ->
+  exists r specs, run kink c st s segs = EOk r /\
+    Forall2 (rec_of (G ++ seg_concat segs)) specs (concat (snd r)) /\
+    BInv (G ++ seg_concat segs) (fst (fst r)) (snd (fst r)) (A ++ specs).
+Proof.
+  induction segs as [|sg rest IH]; intros G st s A HB Hc.
+  - exists (st, s, []), []. unfold seg_concat; cbn [run run_gen map concat fst snd]. rewrite !app_nil_r.
+    split; [reflexivity|]. split; [constructor|exact HB].
+  - destruct Hc as [Hc1 Hc2].
+    destruct (BInv_step G st s A sg HB Hc1) as (st' & s' & recs & specs & Hstep & F2 & HB').
+    assert (Hend : st_endframe st' = st_endframe st + zlen (seg_data sg)).
+    { destruct (StreamInv_end _ _ (bi_stream _ _ _ _ HB')) as [E1 _].
+      destruct (StreamInv_end _ _ (bi_stream _ _ _ _ HB)) as [E2 _]. rewrite E1, E2, zlen_app. lia. }
+    rewrite <- Hend in Hc2.
+    destruct (IH _ _ _ _ HB' Hc2) as (r & specs2 & Hrun & F2' & HB'').
+    destruct r as [[st2 s2] out2]. cbn [fst snd] in *.
+    exists (st2, s2, recs :: out2), (specs ++ specs2).
+    unfold seg_concat in *; cbn [map concat fst snd].
+    rewrite (app_assoc G), (app_assoc A).
+    split.
+    + unfold run in *. cbn [run_gen]. unfold step in Hstep. rewrite Hstep. cbn [ebind]. rewrite Hrun. cbn [ebind]. reflexivity.
+    + split; [|exact HB''].
+      apply Forall2_app; [|exact F2']. apply Forall2_rec_of_app. exact F2.
+Qed.
+
+End M.
+
+(* ---------- whole runs ---------- *)
+Section T.
+Variable kink : list Z -> Z.
+Variable c : cfg.
+Hypothesis kink_range : kink_ok kink.
+Hypothesis cfg_valid : cfg_ok c.
+
+Lemma run_main st0 segs :
+  0 <= st_first st0 -> contiguous (st_endframe st0) segs -> segs <> [] ->
+  exists r specs, run kink c st0 emt_reset segs = EOk r /\
+    Forall2 (rec_of (st_first st0) (st_data st0 ++ seg_concat segs)) specs (concat (snd r)) /\
+    BInv kink c (st_first st0) (st_data st0 ++ seg_concat segs) (fst (fst r)) (snd (fst r)) specs.
+Proof.
+  intros HF Hc Hne. destruct segs as [|sg rest]; [congruence|]. destruct Hc as [Hc1 Hc2].
+  destruct (BInv_first kink c kink_range cfg_valid (st_first st0) HF st0 sg eq_refl Hc1)
+    as (st' & s' & recs & specs & Hstep & F2 & HB).
+  assert (Hend : st_endframe st' = st_endframe st0 + zlen (seg_data sg)).
+  { destruct (StreamInv_end _ _ _ (bi_stream _ _ _ _ _ _ _ HB)) as [E1 _]. rewrite E1, zlen_app.
+    unfold st_endframe. lia. }
+  rewrite <- Hend in Hc2.
+  destruct (run_BInv kink c kink_range cfg_valid (st_first st0) HF rest _ _ _ _ HB Hc2)
+    as (r & specs2 & Hrun & F2' & HB').
+  destruct r as [[st2 s2] out2]. cbn [fst snd] in *.
+  exists (st2, s2, recs :: out2), (specs ++ specs2).
+  unfold seg_concat in *; cbn [map concat fst snd]. rewrite (app_assoc (st_data st0)).
+  split; [|split; [|exact HB']].
+  - unfold run in *. cbn [run_gen]. unfold step in Hstep. rewrite Hstep. cbn [ebind]. rewrite Hrun. reflexivity.
+  - apply Forall2_app; [|exact F2']. apply Forall2_rec_of_app. exact F2.
+Qed.
+
+Lemma BInv_unique F0 G st1 s1 A1 st2 s2 A2 :
+  BInv kink c F0 G st1 s1 A1 -> BInv kink c F0 G st2 s2 A2 -> A1 = A2.
+Proof.
+  intros [_ _ _ _ (t1 & u1 & v1 & p1 & e1 & L1 & R1 & ->)] [_ _ _ _ (t2 & u2 & v2 & p2 & e2 & L2 & R2 & ->)].
+  pose proof (Loop_det kink c _ _ _ _ _ L1 _ L2) as E. inversion E; subst.
+  apply (RelE_ref c cfg_valid _ F0) in R1. apply (RelE_ref c cfg_valid _ F0) in R2. cbn [fst snd] in *.
+  assert (e_next s1 = e_next s2) by lia. congruence.
+Qed.
+
+Lemma rec_of_proj F0 G specs : forall r1 r2,
+  Forall2 (rec_of F0 G) specs r1 -> Forall2 (rec_of F0 G) specs r2 -> map proj r1 = map proj r2.
+Proof.
+  induction specs as [|[[f p] n] specs IH]; intros r1 r2 H1 H2; inversion H1; inversion H2; subst; [reflexivity|].
+  cbn [map]. f_equal; [|apply IH; assumption].
+  unfold rec_of in *. unfold proj.
+  repeat match goal with H : _ /\ _ |- _ => destruct H end. congruence.
+Qed.
+
+Lemma block_independent_proof :
+  forall (st0 : stream) (segsA segsB : list segment),
+    0 <= st_first st0 -> segsA <> [] -> segsB <> [] ->
+    contiguous (st_endframe st0) segsA -> contiguous (st_endframe st0) segsB ->
+    seg_concat segsA = seg_concat segsB ->
+    exists ra rb,
+      run kink c st0 emt_reset segsA = EOk ra /\ run kink c st0 emt_reset segsB = EOk rb /\
+      map proj (concat (snd ra)) = map proj (concat (snd rb)).
+Proof.
+  intros st0 segsA segsB HF NA NB CA CB Heq.
+  destruct (run_main st0 segsA HF CA NA) as (ra & sa & RA & FA & BA).
+  destruct (run_main st0 segsB HF CB NB) as (rb & sb & RB & FB & BB).
+  exists ra, rb. split; [exact RA|]. split; [exact RB|].
+  rewrite Heq in *. pose proof (BInv_unique _ _ _ _ _ _ _ _ BA BB) as ->.
+  eapply rec_of_proj; eauto.
+Qed.
+
+End T.
+
+(* ---------- order, lengths and overlap of what is emitted ---------- *)
+Section O.
+Variable kink : list Z -> Z.
+Variable c : cfg.
+Hypothesis kink_range : kink_ok kink.
+Hypothesis cfg_valid : cfg_ok c.
+
+Notation npre := (c_npre c).
+Notation nsamp := (c_nsamp c).
+
+Definition sframe (sp : spec) : Z := fst (fst sp).
+Definition sbegin (sp : spec) : Z := fst (fst sp) - snd (fst sp).
+Definition send (sp : spec) : Z := fst (fst sp) - snd (fst sp) + snd sp.
+
+(* a comes before b: later frame; in variable-length mode a ends before b begins and at or before b's edge *)
+Definition R2 (a b : spec) : Prop :=
+  sframe a < sframe b /\ (c_mode c = 1 -> send a <= sbegin b /\ send a <= sframe b).
+
+Definition full (sp : spec) : Prop :=
+  0 <= snd (fst sp) /\ (c_mode c <> 1 -> snd (fst sp) = npre /\ snd sp = nsamp).
+
+Definition PInv (F0 : Z) (acc : list spec) (s : lstate) : Prop :=
+  let '(i, t, u, v) := s in
+  npre <= i /\ 0 <= t <= u /\ u <= v /\ v <= i + F0 - 1 /\
+  ForallOrdPairs R2 acc /\
+  Forall (fun a => sframe a <= u /\ (c_mode c = 1 -> send a <= u + Z.min (nsamp - npre) (v - u))) acc /\
+  Forall full acc.
+
+Lemma FOP_snoc {A} (R : A -> A -> Prop) l x :
+  ForallOrdPairs R l -> Forall (fun a => R a x) l -> ForallOrdPairs R (l ++ [x]).
+Proof.
+  induction 1 as [|a l Ha Hl IH]; intros HF; cbn [app].
+  - constructor; constructor.
+  - inversion HF; subst. constructor; [|apply IH; assumption].
+    apply Forall_app; split; [exact Ha|constructor; [assumption|constructor]].
+Qed.
+
+Lemma sr_shape t u v : sr c t u v = [] \/ exists p n, sr c t u v = [(u, p, n)].
+Proof.
+  unfold sr, should_record.
+  destruct ((u =? 0) || (u =? v) || (u =? t)); [now left|].
+  destruct (c_mode c =? 1); [right; do 2 eexists; reflexivity|].
+  destruct (c_mode c =? 0); [right; do 2 eexists; reflexivity|].
+  destruct (c_mode c =? 2); [|now left].
+  match goal with |- context [if ?b then _ else _] => destruct b end; [right; do 2 eexists; reflexivity|now left].
+Qed.
+
+(* appending the emission for the triple (t,u,v) whose predecessor state had (t0,t,u) *)
+Lemma PInv_emit acc t u v :
+  0 <= t <= u -> u <= v ->
+  ForallOrdPairs R2 acc ->
+  Forall (fun a => sframe a <= t /\ (c_mode c = 1 -> send a <= t + Z.min (nsamp - npre) (u - t))) acc ->
+  Forall full acc ->
+  ForallOrdPairs R2 (acc ++ sr c t u v) /\
+  Forall (fun a => sframe a <= u /\ (c_mode c = 1 -> send a <= u + Z.min (nsamp - npre) (v - u))) (acc ++ sr c t u v) /\
+  Forall full (acc ++ sr c t u v).
+Proof.
+  intros Ho1 Ho2 HP HA HFu. destruct cfg_valid as (V1 & V2 & _).
+  assert (Hold : Forall (fun a => sframe a <= u /\ (c_mode c = 1 -> send a <= u + Z.min (nsamp - npre) (v - u))) acc).
+  { eapply Forall_impl; [|exact HA]. intros a [A1 A2]. split; [lia|]. intros M. specialize (A2 M). lia. }
+  destruct (sr_shape t u v) as [->|(p & n & E)]; [rewrite app_nil_r; auto|].
+  assert (Hin : In (u, p, n) (sr c t u v)) by (rewrite E; now left).
+  apply (sr_in c cfg_valid) in Hin as (_ & Hu0 & Hlt & Hp & Hn & Hm0 & Hm1); [|lia].
+  rewrite E. split; [|split].
+  - apply FOP_snoc; [exact HP|]. eapply Forall_impl; [|exact HA]. intros a [A1 A2].
+    unfold R2, sframe, sbegin, send; cbn [fst snd]. split; [unfold sframe in A1; lia|].
+    intros M. specialize (A2 M). specialize (Hm1 M). unfold send in A2. lia.
+  - apply Forall_app; split; [exact Hold|]. constructor; [|constructor].
+    unfold sframe, send; cbn [fst snd]. split; [lia|]. intros M. specialize (Hm1 M). lia.
+  - apply Forall_app; split; [exact HFu|]. constructor; [|constructor].
+    unfold full; cbn [fst snd]. split; [lia|exact Hm0].
+Qed.
+
+Lemma Loop_out_inv raw F0 iL s r :
+  Loop kink c raw F0 iL s r -> forall acc, PInv F0 acc s -> PInv F0 (acc ++ snd r) (fst r).
+Proof.
+  induction 1 as [i t u v nx E | i t u v trig nx s' out E L IH]; intros acc HP; cbn [fst snd] in *.
+  - rewrite app_nil_r. apply find_next_none in E. unfold PInv in *. repeat split; try tauto; lia.
+  - pose proof (find_next_some kink kink_range _ _ _ _ _ _ _ _ _ E) as (e & He & Hx & Ht).
+    destruct HP as (O0 & O1 & O2 & O3 & P1 & P2 & P3).
+    assert (Hw : Z.max npre (e - 1) <= clampv c trig <= e + 1) by (unfold clampv; destruct (trig <? npre) eqn:Q; lia).
+    destruct (PInv_emit acc u v (clampv c trig + F0) ltac:(lia) ltac:(lia) P1 P2 P3) as (Q1 & Q2 & Q3).
+    rewrite app_assoc. apply IH. unfold PInv. repeat split; auto; lia.
+Qed.
+
+Lemma PInv_flush F0 acc s :
+  PInv F0 acc s -> ForallOrdPairs R2 (acc ++ snd (flush c F0 s)) /\ Forall full (acc ++ snd (flush c F0 s)).
+Proof.
+  destruct s as [[[i t] u] v]. intros (O0 & O1 & O2 & O3 & P1 & P2 & P3). unfold flush.
+  destruct ((0 <? v) && (v <? i + F0 - nsamp)); cbn [snd]; [|rewrite app_nil_r; auto].
+  destruct (PInv_emit acc u v (i + F0) ltac:(lia) ltac:(lia) P1 P2 P3) as (Q1 & Q2 & Q3). auto.
+Qed.
+
+(* every run's cumulative emission is ordered, full length in the fixed modes, non-overlapping in variable mode *)
+Lemma BInv_out F0 G st s A : 0 <= F0 -> BInv kink c F0 G st s A -> ForallOrdPairs R2 A /\ Forall full A.
+Proof.
+  intros HF [_ _ _ _ (t & u & v & pout & pend & L & R & ->)]. destruct cfg_valid as (V1 & V2 & _).
+  apply (RelE_ref c cfg_valid _ F0) in R. cbn [fst snd] in R. rewrite R.
+  unfold ref_loop in L. apply PInv_flush.
+  apply (Loop_out_inv _ _ _ _ _ L []). unfold PInv. repeat split; try constructor; lia.
+Qed.
+
+Lemma FOP_Forall2 {A B} (Q : A -> B -> Prop) (R : A -> A -> Prop) (R' : B -> B -> Prop) :
+  (forall a1 a2 b1 b2, Q a1 b1 -> Q a2 b2 -> R a1 a2 -> R' b1 b2) ->
+  forall l l', Forall2 Q l l' -> ForallOrdPairs R l -> ForallOrdPairs R' l'.
+Proof.
+  intros H l l' F2. induction F2 as [|a b l l' Hab F2 IH]; intros HP; [constructor|].
+  inversion HP as [|? ? Ha Hl]; subst. constructor; [|apply IH; assumption].
+  clear IH HP Hl. induction F2 as [|a2 b2 l l' Hq F2 IH2]; [constructor|].
+  inversion Ha; subst. constructor; [eapply H; eauto|apply IH2; assumption].
+Qed.
+
+End O.
+
+(* ---------- the theorems, in the form Properties.v states them ---------- *)
+Lemma rec_of_in_range F0 G sp r : rec_of F0 G sp r -> rec_in_range G F0 r = true.
+Proof.
+  destruct sp as [[f p] n]. unfold rec_of, rec_in_range, r_end, r_begin.
+  intros (H1 & H2 & H3 & H4 & H5 & H6 & H7 & H8). rewrite H1, H2, H3.
+  apply andb_true_iff; split; [lia|]. apply zlist_eqb_eq. exact H8.
+Qed.
+
+Lemma Forall2_Forall_r {A B} (Q : A -> B -> Prop) (P : B -> Prop) l l' :
+  (forall a b, Q a b -> P b) -> Forall2 Q l l' -> Forall P l'.
+Proof. intros H F2. induction F2; constructor; eauto. Qed.
+
+Lemma Forall2_Forall_lr {A B} (Q : A -> B -> Prop) (P0 : A -> Prop) (P : B -> Prop) l l' :
+  (forall a b, Q a b -> P0 a -> P b) -> Forall2 Q l l' -> Forall P0 l -> Forall P l'.
+Proof. intros H F2. induction F2; intros HA; inversion HA; subst; constructor; eauto. Qed.
+
+Section F.
+Variable kink : list Z -> Z.
+Variable c : cfg.
+Hypothesis cfg_valid : cfg_ok c.
+Hypothesis kink_range : kink_ok kink.
+Variable st0 : stream.
+Hypothesis first_nonneg : 0 <= st_first st0.
+Variable segs : list segment.
+Hypothesis gap_free : contiguous (st_endframe st0) segs.
+
+Notation G := (st_data st0 ++ seg_concat segs).
+Notation F0 := (st_first st0).
+
+(* everything at once, for a non-empty delivery *)
+Lemma run_all : segs <> [] ->
+  exists r specs, run kink c st0 emt_reset segs = EOk r /\
+    Forall2 (rec_of F0 G) specs (concat (snd r)) /\ ForallOrdPairs (R2 c) specs /\ Forall (full c) specs.
+Proof.
+  intros Hne. destruct (run_main kink c kink_range cfg_valid st0 segs first_nonneg gap_free Hne)
+    as (r & specs & Hr & F2 & HB).
+  destruct (BInv_out kink c kink_range cfg_valid _ _ _ _ _ first_nonneg HB) as [O1 O2].
+  exists r, specs. auto.
+Qed.
+
+Lemma never_out_of_range_proof :
+  exists r, run kink c st0 emt_reset segs = EOk r /\
+            Forall (fun rec => rec_in_range G F0 rec = true) (concat (snd r)).
+Proof.
+  destruct segs as [|sg rest] eqn:E.
+  - exists (st0, emt_reset, []). split; [reflexivity|constructor].
+  - rewrite <- E in *. destruct run_all as (r & specs & Hr & F2 & _); [congruence|].
+    exists r. split; [exact Hr|]. eapply Forall2_Forall_r; [|exact F2]. intros a b. apply rec_of_in_range.
+Qed.
+
+Lemma increasing_proof r :
+  run kink c st0 emt_reset segs = EOk r -> ForallOrdPairs (fun a b => r_frame a < r_frame b) (concat (snd r)).
+Proof.
+  intros Hr. destruct segs as [|sg rest] eqn:E.
+  - inversion Hr; subst. constructor.
+  - rewrite <- E in *. destruct run_all as (r' & specs & Hr' & F2 & O1 & _); [congruence|].
+    assert (r' = r) by congruence. subst r'.
+    eapply FOP_Forall2; [|exact F2|exact O1].
+    intros [[f1 p1] n1] [[f2 p2] n2] b1 b2 Q1 Q2 [H _]. unfold rec_of, sframe in *; cbn [fst snd] in *. lia.
+Qed.
+
+Lemma fixed_full_length_proof r :
+  run kink c st0 emt_reset segs = EOk r -> c_mode c <> 1 ->
+  Forall (fun rec => r_pre rec = c_npre c /\ zlen (r_data rec) = c_nsamp c) (concat (snd r)).
+Proof.
+  intros Hr Hm. destruct segs as [|sg rest] eqn:E.
+  - inversion Hr; subst. constructor.
+  - rewrite <- E in *. destruct run_all as (r' & specs & Hr' & F2 & _ & O2); [congruence|].
+    assert (r' = r) by congruence. subst r'.
+    eapply Forall2_Forall_lr; [|exact F2|exact O2].
+    intros [[f p] n] b Q [_ Hf]. specialize (Hf Hm). unfold rec_of in Q; cbn [fst snd] in *. lia.
+Qed.
+
+Lemma variable_no_overlap_proof r :
+  run kink c st0 emt_reset segs = EOk r -> c_mode c = 1 ->
+  ForallOrdPairs (fun a b => r_end F0 a <= r_begin F0 b /\ r_end F0 a <= r_frame b - F0) (concat (snd r)).
+Proof.
+  intros Hr Hm. destruct segs as [|sg rest] eqn:E.
+  - inversion Hr; subst. constructor.
+  - rewrite <- E in *. destruct run_all as (r' & specs & Hr' & F2 & O1 & _); [congruence|].
+    assert (r' = r) by congruence. subst r'.
+    eapply FOP_Forall2; [|exact F2|exact O1].
+    intros [[f1 p1] n1] [[f2 p2] n2] b1 b2 Q1 Q2 [_ H]. specialize (H Hm).
+    unfold rec_of, send, sbegin, sframe, r_end, r_begin in *; cbn [fst snd] in *. lia.
+Qed.
+
+End F.
+
+(* the extent of a variable-length record, in terms of the accepted edges around it: it starts no earlier than
+   where the previous edge's record could end and ends at or before the next accepted edge *)
+Lemma variable_extent_proof c t u v f p n :
+  cfg_ok c -> c_mode c = 1 -> t <= u <= v -> In (f, p, n) (sr c t u v) ->
+  f = u /\ t + Z.min (c_nsamp c - c_npre c) (u - t) <= f - p /\ f - p + n <= v /\ f - p + n <= u + (c_nsamp c - c_npre c).
+Proof.
+  intros Hc Hm Ho Hin. apply (sr_in c Hc) in Hin as (H1 & H2 & H3 & H4 & H5 & _ & H7); [|exact Ho].
+  specialize (H7 Hm). lia.
+Qed.
+
+(* ---------- the code before the fix ---------- *)
+Definition w_cfg : cfg := {| c_mode := 0; c_thr := 100; c_nmono := 1; c_npre := 6; c_nsamp := 16; c_zt := true |}.
+Definition w_st0 : stream := {| st_data := []; st_first := 0; st_time := 0; st_period := 100000; st_signed := false |}.
+Definition w_seg : segment :=
+  {| seg_data := [1000;1000;1000;1000;1000;1000;1150;1300;1450;1600;1750;1900;2050;2200;2200;2200;2200;2200;2200;2200;
+                  2200;2200;2200;2200;2200;2200;2200;2200;2200;2200;2200;2200;2200;2200;2200;2200;2200;2200;2200;2200];
+     seg_first := 0; seg_time := 1000000000; seg_period := 100000; seg_signed := false |}.
+Definition w_kink : list Z -> Z := fun _ => -1.   (* what the real fit answers for "flat, then ramp" *)
+
+Lemma w_hyps : cfg_ok w_cfg /\ kink_ok w_kink /\ 0 <= st_first w_st0 /\ contiguous (st_endframe w_st0) [w_seg].
+Proof. unfold cfg_ok, kink_ok, w_kink; cbn. repeat split; try lia; intros; lia. Qed.
+
+Lemma refuted_pre_fix_proof :
+  run_old w_kink w_cfg w_st0 emt_reset [w_seg] = EPanic /\
+  exists r, run w_kink w_cfg w_st0 emt_reset [w_seg] = EOk r /\ map r_frame (concat (snd r)) = [6].
+Proof. split; [vm_compute; reflexivity|]. eexists. split; vm_compute; reflexivity. Qed.
+
+(* ---------- argument order of Properties.v ---------- *)
+Lemma emt_block_independent_thm :
+  forall (kink : list Z -> Z) (c : cfg) (st0 : stream) (segsA segsB : list segment),
+    cfg_ok c -> kink_ok kink -> 0 <= st_first st0 ->
+    segsA <> [] -> segsB <> [] ->
+    contiguous (st_endframe st0) segsA -> contiguous (st_endframe st0) segsB ->
+    seg_concat segsA = seg_concat segsB ->
+    exists ra rb,
+      run kink c st0 emt_reset segsA = EOk ra /\ run kink c st0 emt_reset segsB = EOk rb /\
+      map proj (concat (snd ra)) = map proj (concat (snd rb)).
+Proof. intros kink c st0 sa sb Hc Hk. exact (block_independent_proof kink c Hk Hc st0 sa sb). Qed.
+
+Lemma emt_block_independent_statement_thm : block_independent_statement.
+Proof. exact emt_block_independent_thm. Qed.
+
+Lemma emt_never_out_of_range_thm :
+  forall (kink : list Z -> Z) (c : cfg) (st0 : stream) (segs : list segment),
+    cfg_ok c -> kink_ok kink -> 0 <= st_first st0 -> contiguous (st_endframe st0) segs ->
+    exists r, run kink c st0 emt_reset segs = EOk r /\
+              Forall (fun rec => rec_in_range (st_data st0 ++ seg_concat segs) (st_first st0) rec = true)
+                     (concat (snd r)).
+Proof. intros kink c st0 segs Hc Hk HF Hg. exact (never_out_of_range_proof kink c Hc Hk st0 HF segs Hg). Qed.
+
+Lemma emt_increasing_thm :
+  forall (kink : list Z -> Z) (c : cfg) (st0 : stream) (segs : list segment) r,
+    cfg_ok c -> kink_ok kink -> 0 <= st_first st0 -> contiguous (st_endframe st0) segs ->
+    run kink c st0 emt_reset segs = EOk r ->
+    ForallOrdPairs (fun a b => r_frame a < r_frame b) (concat (snd r)).
+Proof. intros kink c st0 segs r Hc Hk HF Hg. exact (increasing_proof kink c Hc Hk st0 HF segs Hg r). Qed.
+
+Lemma emt_fixed_full_length_thm :
+  forall (kink : list Z -> Z) (c : cfg) (st0 : stream) (segs : list segment) r,
+    cfg_ok c -> kink_ok kink -> 0 <= st_first st0 -> contiguous (st_endframe st0) segs ->
+    run kink c st0 emt_reset segs = EOk r -> c_mode c <> 1 ->
+    Forall (fun rec => r_pre rec = c_npre c /\ zlen (r_data rec) = c_nsamp c) (concat (snd r)).
+Proof. intros kink c st0 segs r Hc Hk HF Hg. exact (fixed_full_length_proof kink c Hc Hk st0 HF segs Hg r). Qed.
+
+Lemma emt_variable_no_overlap_thm :
+  forall (kink : list Z -> Z) (c : cfg) (st0 : stream) (segs : list segment) r,
+    cfg_ok c -> kink_ok kink -> 0 <= st_first st0 -> contiguous (st_endframe st0) segs ->
+    run kink c st0 emt_reset segs = EOk r -> c_mode c = 1 ->
+    ForallOrdPairs (fun a b => r_end (st_first st0) a <= r_begin (st_first st0) b /\
+                               r_end (st_first st0) a <= r_frame b - st_first st0) (concat (snd r)).
+Proof. intros kink c st0 segs r Hc Hk HF Hg. exact (variable_no_overlap_proof kink c Hc Hk st0 HF segs Hg r). Qed.
